@@ -99,44 +99,49 @@ Section Fixed.
   Definition InvB0 (d : dir) : Prop := InvB d /\ d tmp = None.
 
   Let ops := ops_fixed path tmp new.
-  Let s1 := upd d0 tmp (Some []).
+  Let r0 := upd d0 tmp None.
+  Let s1 := upd r0 tmp (Some []).
   Let s2 := upd s1 tmp (Some new).
   Let s5 := upd (upd s2 tmp None) path (Some new).
 
   Lemma fixed_states k :
     run (firstn k ops) d0 =
-      match k with 0 => d0 | 1 => s1 | 2 | 3 | 4 => s2 | _ => s5 end%nat.
+      match k with 0 => d0 | 1 => r0 | 2 => s1 | 3 | 4 | 5 => s2 | _ => s5 end%nat.
   Proof.
     assert (E1 : s1 tmp = Some []) by apply upd_same.
     assert (E2 : s2 tmp = Some new) by apply upd_same.
     assert (W : apply s1 (Write tmp new) = s2) by (rewrite (apply_write_some _ _ _ _ E1); reflexivity).
     assert (R : apply s2 (Rename tmp path) = s5) by (rewrite (apply_rename_some _ _ _ _ E2); reflexivity).
-    assert (C1 : apply d0 (Create tmp) = s1) by reflexivity.
+    assert (C0 : apply d0 (Remove tmp) = r0) by reflexivity.
+    assert (C1 : apply r0 (Create tmp) = s1) by reflexivity.
     assert (C3 : apply s2 (Close tmp) = s2) by reflexivity.
     assert (C4 : apply s2 (Chmod tmp) = s2) by reflexivity.
-    do 5 (destruct k as [|k]; [cbn [ops ops_fixed firstn run fold_left]; rewrite ?C1, ?W, ?C3, ?C4, ?R; reflexivity|]).
-    destruct k; cbn [ops ops_fixed firstn run fold_left]; rewrite ?C1, ?W, ?C3, ?C4, ?R; reflexivity.
+    do 6 (destruct k as [|k]; [cbn [ops ops_fixed firstn run fold_left]; rewrite ?C0, ?C1, ?W, ?C3, ?C4, ?R; reflexivity|]).
+    destruct k; cbn [ops ops_fixed firstn run fold_left]; rewrite ?C0, ?C1, ?W, ?C3, ?C4, ?R; reflexivity.
   Qed.
 
   Lemma A_d0 : InvA d0. Proof. split; auto. Qed.
+  Lemma A_r0 : InvA r0.
+  Proof. split; [unfold r0; rewrite upd_other by congruence; exact H0|].
+         intros n _ Hn. unfold r0. apply upd_other; exact Hn. Qed.
   Lemma A_s1 : InvA s1.
-  Proof. split; [unfold s1; rewrite upd_other by congruence; exact H0|].
-         intros n _ Hn. unfold s1. apply upd_other; exact Hn. Qed.
+  Proof. split; [unfold s1, r0; rewrite !upd_other by congruence; exact H0|].
+         intros n _ Hn. unfold s1, r0. rewrite !upd_other by exact Hn. reflexivity. Qed.
   Lemma A_tmp c : InvA (upd s1 tmp (Some c)).
-  Proof. split; [unfold s1; rewrite !upd_other by congruence; exact H0|].
-         intros n _ Hn. unfold s1. rewrite !upd_other by exact Hn. reflexivity. Qed.
+  Proof. split; [unfold s1, r0; rewrite !upd_other by congruence; exact H0|].
+         intros n _ Hn. unfold s1, r0. rewrite !upd_other by exact Hn. reflexivity. Qed.
   Lemma B_s5 : InvB0 s5.
   Proof.
     split; [split|].
     - unfold s5. apply upd_same.
-    - intros n Hp Hn. unfold s5, s2, s1. rewrite !upd_other by assumption. reflexivity.
+    - intros n Hp Hn. unfold s5, s2, s1, r0. rewrite !upd_other by assumption. reflexivity.
     - unfold s5. rewrite upd_other by exact Htp. apply upd_same.
   Qed.
 
   Lemma between_inv k : InvA (run (firstn k ops) d0) \/ InvB0 (run (firstn k ops) d0).
   Proof.
     rewrite fixed_states.
-    do 5 (destruct k as [|k]; [left; first [exact A_d0 | exact A_s1 | exact (A_tmp new)]|]).
+    do 6 (destruct k as [|k]; [left; first [exact A_d0 | exact A_r0 | exact A_s1 | exact (A_tmp new)]|]).
     right. destruct k; exact B_s5.
   Qed.
 
@@ -151,6 +156,7 @@ Section Fixed.
       + apply between_inv.
       + rewrite <- (run_firstn_S ops k o d0 Hn). apply between_inv.
       + subst o. rewrite fixed_states.
+        destruct k as [|k]; [discriminate|].
         destruct k as [|k]; [discriminate|].
         destruct k as [|k].
         * cbn in Hn. inversion Hn; subst n c.
@@ -183,8 +189,8 @@ Lemma fixed_full_run path tmp c new (d : dir) : tmp <> path -> d path = Some c -
   d' path = Some new /\ d' tmp = None /\ forall n, n <> path -> n <> tmp -> d' n = d n.
 Proof.
   intros Htp H0. cbv zeta.
-  pose proof (fixed_states path tmp new d 5%nat) as E. cbv zeta in E.
-  change (firstn 5 (ops_fixed path tmp new)) with (ops_fixed path tmp new) in E. rewrite E.
+  pose proof (fixed_states path tmp new d 6%nat) as E. cbv zeta in E.
+  change (firstn 6 (ops_fixed path tmp new)) with (ops_fixed path tmp new) in E. rewrite E.
   destruct (B_s5 path tmp new d Htp) as [[P O] T]. cbn match. auto.
 Qed.
 
